@@ -473,4 +473,93 @@ theorem C11_e2e_recursive_covered (w : AE.World) (wc : WalkCfg) (o : Opts) (tree
 
 end E2E
 
+section E2EExamples
+open Model Model.AE Spec Spec.AE
+
+/-- the style of the table called `n` -/
+def styleNamed (n : String) : Generated.Style :=
+  (styleByName n).getD ⟨"", "", [], none, [], [], [], [], [], [], [], []⟩
+
+/-! ### non-vacuity for the composed model: `reuse annotate --copyright "Jane */ Doe" --license MIT a.py b.c d.png`
+— `b.c` (multi-line style, the holder contains its terminator) is refused, by the text level -/
+
+def e2eWorld : AE.World where
+  curYear := "2026".toList
+  parses := fun _ => true
+  normLic := id
+  binary := fun p => ".png".toList.isSuffixOf p
+  unreadable := fun _ => false
+  below := fun _ => []
+  renderOf := fun _ _ => []
+
+def e2eOpts : Opts where
+  copyrights := ["Jane */ Doe".toList]
+  licenses := ["MIT".toList]
+  contributors := []
+  years := []
+  excludeYear := false
+  prefixKey := none
+  style := none
+  template := none
+  mergeCopyrights := false
+  single := false
+  multi := false
+  recursive := false
+  noReplace := false
+  forceDot := false
+  fallbackDot := false
+  skipUnrec := false
+  skipExisting := false
+  paths := ["a.py".toList, "b.c".toList, "d.png".toList]
+
+def e2eFs : Fs := Fs.ofList [("a.py".toList, .file "x = 1\n".toList), ("b.c".toList, .file "int x;\n".toList),
+  ("d.png".toList, .file "binary".toList)]
+
+example : clickRejects e2eWorld e2eOpts = false := by decide +kernel
+example : (preflight (envOf e2eWorld e2eOpts e2eFs) (argsOf e2eOpts) e2eFs).toOption = some e2eOpts.paths := by decide +kernel
+example : Separate e2eOpts.paths ∧ ∀ q ∈ e2eOpts.paths, WfPath q := by decide
+example : ∀ t ∈ writeSet "b.c".toList, Fs.isLink e2eFs t = false := by decide +kernel
+example : (requested e2eWorld e2eOpts).cpr = ["SPDX-FileCopyrightText: 2026 Jane */ Doe".toList] := by decide +kernel
+example : attempt (envOf e2eWorld e2eOpts e2eFs) (argsOf e2eOpts) e2eFs "b.c".toList = some ("b.c".toList, "int x;\n".toList) := by
+  decide +kernel
+example : attempt (envOf e2eWorld e2eOpts e2eFs) (argsOf e2eOpts) e2eFs "d.png".toList = some ("d.png.license".toList, []) := by
+  decide +kernel
+/-- `create_header` refuses for `b.c`: `CommentCreateError` -/
+theorem e2e_example_refused : HeaderRefused e2eWorld e2eOpts e2eFs "b.c".toList "int x;\n".toList := by
+  have hname : commentStyleName "b.c".toList = some "CCommentStyle" := by decide +kernel
+  have hsome : (styleByName "CCommentStyle").isSome = true := by decide +kernel
+  obtain ⟨sty, hsty⟩ := Option.isSome_iff_exists.mp hsome
+  have hs : styleFor e2eOpts "b.c".toList = some (styleNamed "CCommentStyle") := by
+    simp only [styleFor, writtenStyle, forced, e2eOpts, Option.bind_none, genStyleOf, hname, Option.bind_some, hsty,
+      Option.orElse, styleNamed, Option.getD_some]
+  refine ⟨_, .commentCreate, hs, ?_⟩
+  have hold : oldHeader (cfgFor e2eWorld e2eOpts e2eFs (styleNamed "CCommentStyle")) (!e2eOpts.noReplace)
+      (workText "int x;\n".toList) = [] := by decide +kernel
+  rw [hold]
+  have : (match createHeader (cfgFor e2eWorld e2eOpts e2eFs (styleNamed "CCommentStyle")) (requested e2eWorld e2eOpts) [] with
+    | .error .commentCreate => true | _ => false) = true := by decide +kernel
+  revert this
+  cases createHeader (cfgFor e2eWorld e2eOpts e2eFs (styleNamed "CCommentStyle")) (requested e2eWorld e2eOpts) [] with
+  | ok t => simp
+  | error e => cases e <;> simp
+
+theorem e2e_example_pre :
+    preflight (envOf e2eWorld e2eOpts e2eFs) (argsOf e2eOpts) e2eFs = .ok e2eOpts.paths := by
+  have hpre : (preflight (envOf e2eWorld e2eOpts e2eFs) (argsOf e2eOpts) e2eFs).toOption = some e2eOpts.paths := by
+    decide +kernel
+  cases h : preflight (envOf e2eWorld e2eOpts e2eFs) (argsOf e2eOpts) e2eFs with
+  | error e => rw [h] at hpre; cases hpre
+  | ok ps => rw [h] at hpre; simp only [Except.toOption, Option.some.injEq] at hpre; rw [hpre]
+
+-- `C11_e2e_failed_unchanged` and `C11_e2e_exit` applied: `b.c` and `b.c.license` are as before, the exit status is 1
+example : (annotateE2E e2eWorld e2eOpts e2eFs).1 "b.c".toList = e2eFs "b.c".toList ∧
+    (annotateE2E e2eWorld e2eOpts e2eFs).1 "b.c.license".toList = e2eFs "b.c.license".toList :=
+  C11_e2e_failed_unchanged e2eWorld e2eOpts e2eFs e2eOpts.paths "b.c".toList "b.c".toList "int x;\n".toList
+    (by decide +kernel) e2e_example_pre (by decide) (by decide) (by decide) (by decide +kernel) (by decide +kernel)
+    (.inr e2e_example_refused)
+example : (annotateE2E e2eWorld e2eOpts e2eFs).2 = 1 :=
+  (C11_e2e_exit e2eWorld e2eOpts e2eFs e2eOpts.paths (by decide +kernel) e2e_example_pre (by decide) (by decide)
+    (by decide +kernel)).1.mpr ⟨"b.c".toList, by decide, "b.c".toList, "int x;\n".toList, by decide +kernel, .inr e2e_example_refused⟩
+end E2EExamples
+
 end C11
